@@ -476,7 +476,7 @@ def run_streams(ctx, harness, driver, batches, singles, corpus):
 
 
 def spec_test(ctx, driver):
-    """the specifications the theorems are stated against (Spec.utf8, Spec.rfc4648Encode, Spec.upperHex,
+    """the specifications the theorems are stated against (Spec.utf8, Spec.wellFormed, Spec.rfc4648Encode, Spec.upperHex,
     decDigits/decimalValue) evaluated by the compiled driver and compared with Python: a TEST of the specs"""
     rng = ctx.rng
     lines, want = [], []
@@ -494,6 +494,11 @@ def spec_test(ctx, driver):
         want.append(f"spec-b64 {hx(base64.b64encode(r))}")
         lines.append(f"spec-hex {hx(r)}")
         want.append(f"spec-hex {hx(r.hex().upper().encode())}")
+    wfs = [b""] + [bytes([a]) for a in range(256)] + [bytes([a, b]) for a in range(0x70, 256, 3) for b in range(0x70, 0xD0)]
+    wfs += [rand_utf8ish(rng) for _ in range(6000)]
+    for r in wfs:
+        lines.append(f"spec-wf {hx(r)}")
+        want.append(f"spec-wf {1 if STRUCT_VALID.fullmatch(r) else 0}")
     for v in int_values(rng, 64, False, 3000) + [1 << 64, 10 ** 30 + 7]:
         lines.append(f"spec-dec {v}")
         want.append(f"spec-dec {v} {v}")
